@@ -8,6 +8,7 @@ import (
 	"github.com/hashicorp/hcl-lang/decoder"
 	"github.com/hashicorp/hcl-lang/lang"
 	"github.com/hashicorp/hcl/v2"
+	"github.com/hashicorp/hcl/v2/hclsyntax"
 
 	"lssim/deep"
 	h "lssim/harness"
@@ -88,6 +89,13 @@ func (j *rangeJudge) check(pi int, r hcl.Range) (clause, detail string) {
 		}
 		want := h.PosAt(f.Text, p.Byte)
 		if want.Line != p.Line || want.Column != p.Column {
+			if sp, ok := scannerPos(f.Text, r.Filename, p.Byte); ok && sp.Line == p.Line && sp.Column == p.Column {
+				// the position is the HCL scanner's own: it counts columns token by
+				// token, so a character made of several code points that a broken
+				// file splits across two tokens (an emoji and its modifier outside a
+				// string) counts twice. hcl-lang copies the parser's range.
+				return "line-column-scanner", fmt.Sprintf("range %v: byte %d is line %d column %d, not %d:%d (the scanner's count; a grapheme cluster is split across tokens earlier on the line)", r, p.Byte, want.Line, want.Column, p.Line, p.Column)
+			}
 			return "line-column", fmt.Sprintf("range %v: byte %d is line %d column %d, not %d:%d", r, p.Byte, want.Line, want.Column, p.Line, p.Column)
 		}
 	}
@@ -113,7 +121,9 @@ func lastField(path string) string {
 }
 
 func (o *C02) Check(x *h.Exec, ev *h.Event) {
-	if !x.S.Quiescent() {
+	// ranges of stale sets refer to an older text; reader faults on other paths
+	// do not excuse a range
+	if !x.S.SetsCurrent() {
 		return
 	}
 	c := ev.Check
@@ -131,6 +141,11 @@ func (o *C02) Check(x *h.Exec, ev *h.Event) {
 		report := func(clause, field, detail string) bool {
 			if clause == "" {
 				return false
+			}
+			if clause == "line-column-scanner" {
+				// one root cause whatever the query: fingerprint by cause
+				x.Report(clause, "hcl-scanner", "split-grapheme-cluster", detail, &q)
+				return true
 			}
 			x.Report(clause, q.Kind, field, detail, &q)
 			return true
@@ -243,4 +258,19 @@ func sweep(x *h.Exec, ev *h.Event, want func(string) bool, judge func(h.Query) b
 			}
 		}
 	}
+}
+
+// scannerPos: the position the HCL scanner assigns to a byte offset that is a
+// token boundary.
+func scannerPos(text []byte, filename string, off int) (hcl.Pos, bool) {
+	toks, _ := hclsyntax.LexConfig(text, filename, hcl.InitialPos)
+	for _, t := range toks {
+		if t.Range.Start.Byte == off {
+			return t.Range.Start, true
+		}
+		if t.Range.End.Byte == off {
+			return t.Range.End, true
+		}
+	}
+	return hcl.Pos{}, false
 }
